@@ -7,7 +7,8 @@
 (***************************************************************************)
 EXTENDS Events, Json, TLCExt
 
-CONSTANTS KeyLen,      \* keys are all bit strings of length <= KeyLen
+CONSTANTS ExplicitKeys, \* the key universe when KeyLen < 0
+          KeyLen,      \* keys are all bit strings of length <= KeyLen
           Base,        \* ... prefixed by Base when non-empty (boundary universes)
           Hosts,       \* host tokens an argument may carry
           Vals,        \* values
@@ -23,11 +24,13 @@ VARIABLES m, abs, ev, ret, pan, aret, apan, hist, canon, drift
 vars == <<m, abs, ev, ret, pan, aret, apan, hist, canon, drift>>
 
 RECURSIVE BitSeqs(_)
-BitSeqs(k) == IF k = 0 THEN {<<>>}
+BitSeqs(k) == IF k <= 0 THEN {<<>>}
               ELSE LET S == BitSeqs(k - 1) IN
                    S \cup {Append(s, 0) : s \in {t \in S : Len(t) = k - 1}}
                      \cup {Append(s, 1) : s \in {t \in S : Len(t) = k - 1}}
-Keys  == {<<>>} \cup {Base \o s : s \in BitSeqs(KeyLen)}
+\* the key universe: all bit strings up to KeyLen (prefixed by Base), or -- for KeyLen < 0 -- an explicit set
+\* (e.g. a chain four levels deep with its siblings: deeper than the complete universes can afford)
+Keys  == IF KeyLen >= 0 THEN {<<>>} \cup {Base \o s : s \in BitSeqs(KeyLen)} ELSE ExplicitKeys
 Pfxs  == {Pfx(n, h) : n \in Keys, h \in Hosts}
 StoredKeys == {e.n : e \in abs}
 
